@@ -53,6 +53,20 @@ theorem ft_modulate (pi nu : Rat) (x : E) (h : WF x) : ft pi (modE nu x) = shift
 theorem ft_scale (pi s : Rat) (hs : s ≠ 0) (x : E) (h : WF x) :
     ft pi (scaleE s x) = smulE (CQ.ofRat (1 / rabs s)) (scaleE (1 / s) (ft pi x)) := ft_scaleE pi s hs x h
 
+/-- the two laws compose: x(at + b)  ⟷  e^{j2π(b/a)f} X(f/a)/|a|  -- the delay of a scaled and shifted signal is b/a, not b -/
+theorem ft_scale_shift (pi a b : Rat) (ha : a ≠ 0) (x : E) (h : WF x) :
+    ft pi (scaleE a (shiftE (-b) x)) = smulE (CQ.ofRat (1 / rabs a)) (scaleE (1 / a) (modE b (ft pi x))) := by
+  have hw : WF (shiftE (-b) x) := by
+    intro t ht
+    simp only [shiftE, List.mem_map] at ht
+    obtain ⟨u, hu, rfl⟩ := ht
+    exact h u hu
+  rw [ft_scaleE pi a ha _ hw, ft_shiftE pi (-b) x h, neg_neg]
+
+/-- ... and the phase it produces on a term: modulation b/a -/
+example : (ft 3 (scaleE 2 (shiftE 1 [⟨1, 0, 0, .rect, 1, 0⟩]))).map (·.th) = [-1 / 2] := by
+  simp [ft, ftTerm, ftKind, scaleE, shiftE, scaleT, shiftT]
+
 example : WF [⟨1, 0, 2, .rect, 2, -1⟩, ⟨⟨0, 1⟩, 0, 0, .expu 1 ⟨3, 0⟩, -1, 0⟩] := by
   intro t ht; simp at ht; rcases ht with rfl | rfl <;> decide
 
@@ -63,6 +77,11 @@ theorem ift_shift (pi tau : Rat) (x : E) (h : WF x) : ift pi (shiftE tau x) = mo
 
 /-! ## the model of `term` refines the formal transform -/
 
+/-- the similarity and shift statements of `term`, as read from the source by the translator, are the theorems:
+    `self.term(expr2, t, f/scale)/abs(scale)` and `exp(I*2*pi*sf/scale*shift)` (the delay of x(at+b) is b/a) -/
+theorem similarity_code_is_theorem :
+    Gen.similarity = some (-1, 1) ∧ Gen.shiftPhase = some (true, -1, 1) ∧ Gen.theoremCodeAsModelled = true := by decide
+
 /-- forward direction: for an atom handled by a table branch, what the code computes (table value, then
     `similarity_shift` with `f/scale`, `/|scale|` and the phase factor, then the modulation substitution) is the
     spec transform of  c·e^{j2πθt}·K(at+b), provided the branch returns the spec's pair -/
@@ -71,7 +90,7 @@ theorem model_forward_refines (pi : Rat) (t : Term) (e : GEntry) (ha : t.a ≠ 0
     (h4 : t.k ≠ .inv2) (hl : Model.lookup t.k 0 = some e)
     (hpair : entryE pi false e.terms = (ftKind pi t.k).map fun p => ⟨p.q, 0, 0, p.k, p.s, 0⟩) :
     Model.modelTerm pi false 0 t = some (ftTerm pi t) :=
-  model_forward_refines_aux pi t e ha hk hk' h1 h2 h3 h4 hl hpair
+  model_forward_refines_aux pi t e ha similarity_code_is_theorem.1 similarity_code_is_theorem.2.1 hk hk' h1 h2 h3 h4 hl hpair
 
 /-! ## frequency variables -/
 
